@@ -5,6 +5,7 @@ try:
 except ImportError:
     import pickle
 
+import copy
 
 import numpy as np
 
@@ -94,7 +95,12 @@ class FitInfoFile(object):
                     yield info
         else:
             for info in self._fits:
-                yield info
+                # Yield a (shallow) copy, as when reading from a file, so that
+                # consumers that filter the fits in place (FitInfo.keep) do
+                # not modify the objects passed in by the caller
+                info_copy = copy.copy(info)
+                info_copy.meta = info.meta
+                yield info_copy
 
 
 class FitInfoMeta(object):
